@@ -300,7 +300,7 @@ func runC11(c *mon.Ctx) {
 		}
 	}
 	// stage random
-	n := c.Pick(1000000, 18000000)
+	n := c.Pick(1000000, 50000000)
 	for i := int64(0); i < n; i++ {
 		if !c.Mine("random", i) {
 			continue
